@@ -355,6 +355,31 @@ func c14Pool(r *Run) {
 			e1 := f.Unmarshal([]byte(`l1234567890123;`), &v)
 			e2 := hio.Unmarshal([]byte(`l123456789012;`), &w)
 			p.out = fmt.Sprintf("%T %v %T %v", v, e1, w, e2)
+		case "codec-with-all-options":
+			// a codec with every decoder option away from its default uses a pooled decoder
+			cl := core.NewClient("mock://c14p")
+			cl.Codec = core.NewClientCodec(core.WithSimple(true), core.WithLongType(hio.LongTypeInt64), core.WithRealType(hio.RealTypeFloat32),
+				core.WithMapType(hio.MapTypeSIMap), core.WithStructType(hio.StructTypeValue), core.WithListType(hio.ListTypeSlice))
+			cc := core.NewClientContext()
+			cc.Init(cl)
+			res, err := cl.Codec.Decode([]byte(`Ra3{1;2;3;}z`), cc)
+			p.out = fmt.Sprintf("%#v %v", res, err)
+			svc := core.NewService()
+			svc.Codec = core.NewServiceCodec(core.WithLongType(hio.LongTypeUint), core.WithMapType(hio.MapTypeSIMap), core.WithListType(hio.ListTypeSlice), core.WithStructType(hio.StructTypeValue))
+			svc.AddFunction(func(x interface{}) interface{} { return x }, "id")
+			sc := core.NewServiceContext(svc)
+			_, args, e2 := svc.Codec.Decode([]byte(`Cs2"id"a1{a2{1;2;}}z`), sc)
+			p.out += fmt.Sprintf(" | %#v %v", args, e2)
+		case "probe-defaults":
+			// what a plain Unmarshal into interface{} yields must not depend on who used the pooled decoder before
+			var l, n, f, m interface{}
+			e1 := hio.Unmarshal([]byte(`a3{1;2;3;}`), &l)
+			e2 := hio.Unmarshal([]byte(`l123456789012;`), &n)
+			e3 := hio.Unmarshal([]byte(`d1.5;`), &f)
+			e4 := hio.Unmarshal([]byte(`m1{s1"k"1}`), &m)
+			var l2 interface{}
+			e5 := hio.Formatter{Simple: false}.Unmarshal([]byte(`a2{s3"abc"r1;}`), &l2)
+			p.out = fmt.Sprintf("%T %T %T %T %T %v %v %v %v %v", l, n, f, m, l2, e1, e2, e3, e4, e5)
 		case "decoder-reuse":
 			d := hio.GetDecoder().ResetBytes([]byte(`a2{s3"abc"r0`)).Simple(false)
 			var v []string
@@ -367,7 +392,8 @@ func c14Pool(r *Run) {
 			hio.FreeDecoder(d2)
 		}
 	}
-	kinds := []string{"marshal-simple", "marshal-ref", "unmarshal-bad", "unmarshal-good", "unmarshal-ref", "unmarshal-longtype", "decoder-reuse"}
+	kinds := []string{"marshal-simple", "marshal-ref", "unmarshal-bad", "unmarshal-good", "unmarshal-ref", "unmarshal-longtype", "decoder-reuse",
+		"codec-with-all-options", "probe-defaults", "probe-defaults"}
 	var all []*pop
 	fin := 0
 	for t := 0; t < ntasks; t++ {
